@@ -6,6 +6,7 @@ R-C07.2  never crashes: no scenario ends in an exception (IndexError on Tuple[()
          generic members, TypeError from issubclass ...)
 R-C07.3  fires only on its documented trigger; without the trigger the input comes back unchanged;
          RemoveEmptyContainers drops nothing but empty containers that have a non-empty sibling of the same kind
+R-C07.5  the compat predicates the rewriters dispatch on answer as the type model assumes (is_generic_of = same origin ...)
 R-C07.4  chain integrity: DEFAULT_REWRITER chains all four rewriters, ChainedRewriter feeds each output to
          the next, the configs return the documented rewriters; container recursion rewrites every argument
 """
@@ -294,3 +295,5 @@ def run(ctx: Ctx, repo: Repo, tier: str) -> None:
     rule_no_memory(ctx, repo)
     rule_chain(ctx, repo)
     rule_container_recursion(ctx, repo)
+    from .compat_rules import compat_predicates
+    compat_predicates(ctx, repo, "R-C07.5", ("is_generic_of", "is_union", "is_generic", "is_any", "is_typed_dict", "types_equal"))
